@@ -161,6 +161,10 @@ inductive Ev
   | setLocal (t : Nat) (k : Nat) (v : Nat)
   | replaceLocal (t : Nat) (k : Nat) (v : Nat)
   | getLocal (t : Nat) (k : Nat)
+  | createFail (a : Nat)                            -- `p_uthread_create*` whose native part fails: NULL
+  | joinFail (a : Nat) (h : Nat)                    -- `p_uthread_join` whose `pthread_join` fails
+  | tlsFail (t : Nat) (k : Nat) (get : Bool)        -- a TLS call whose lazy `pthread_key_create` fails
+  | currentFail (t : Nat)                           -- `p_uthread_current` whose fresh handle cannot be stored: NULL
   deriving DecidableEq, Repr
 
 def upd {α : Type} (f : Nat → α) (i : Nat) (x : α) : Nat → α := fun j => if j = i then x else f j
@@ -215,6 +219,22 @@ def createEnd (s : State) (a : Nat) : Except Err State :=
         refCount := createInitRefCount, ours := true, joinable := c.joinable, named := c.named,
         written := true, userRefs := 1, threadRef := true }
       spin := none }
+
+/-- `p_uthread_create_full` when `p_uthread_create_internal` fails after its allocation: `p_spinlock_lock`;
+    `ret = p_malloc0 (sizeof (PUThread))`; `ret->base.joinable = joinable`; one of `pthread_attr_init`,
+    `pthread_attr_setdetachstate`, `pthread_create` (after the EPERM retry) returns non-zero; `pthread_attr_destroy` (on the
+    last two paths); `p_free (ret)`; NULL comes back, so `p_uthread_create_full` writes no field; `p_spinlock_unlock`; NULL is
+    returned.  No native thread exists.  The block takes the next handle id: it is allocated and released inside the call
+    and its pointer is given to nobody (`written` = the creating call is over; what a freed block contains is immaterial). -/
+def createFail (s : State) (a : Nat) : Except Err State :=
+  if ¬ canAct s a then .error .notEnabled else
+  match s.spin with
+  | some _ => .error .notEnabled
+  | none =>
+    .ok { s with
+      nH := s.nH + 1
+      hdl := upd s.hdl s.nH { freed := true, written := true }
+      freeLog := s.freeLog ++ [s.nH] }
 
 /-- a thread the library did not create (the harness's raw `pthread_create`) -/
 def spawn (s : State) : Except Err State :=
@@ -317,6 +337,15 @@ def join (s : State) (a : Nat) (h : Nat) : Except Err State :=
   .ok { s with
     hdl := upd s.hdl h { s.hdl h with joined := true }
     joinLog := s.joinLog ++ [(a, h, (s.hdl h).retCode)] }
+
+/-- `p_uthread_join` on a joinable handle when `pthread_join` returns an error (`p_uthread_wait_internal` only logs it):
+    the call does not wait — whatever `ret_code` holds at that moment is returned; the native thread stays unjoined.
+    (On a handle that is not joinable the native call is not made: that is the `join` event.) -/
+def joinFail (s : State) (a : Nat) (h : Nat) : Except Err State :=
+  if ¬ canAct s a ∨ ¬ h < s.nH ∨ (s.hdl h).written = false then .error .notEnabled else
+  if (s.hdl h).freed then .error (.useAfterFree h) else
+  if (s.hdl h).joinable = false then .error .notEnabled else
+  .ok { s with joinLog := s.joinLog ++ [(a, h, (s.hdl h).retCode)] }
 
 /-! ## thread end -/
 
@@ -436,6 +465,31 @@ def getLocal (s : State) (t : Nat) (k : Nat) : Except Err State :=
   | .error e => .error e
   | .ok n => .ok { s with getLog := s.getLog ++ [(t, k, s.tls t n)] }
 
+/-- `p_uthread_set_local` / `p_uthread_replace_local` / `p_uthread_get_local` (`get`) on a user key without a native key
+    when the `pthread_key_create` inside `pp_uthread_get_tls_key` fails: `p_malloc0 (sizeof (pthread_key_t))`;
+    `pthread_key_create` ≠ 0; `p_free (thread_key)`; NULL — `set` / `replace` return without storing anything and without
+    calling the notifier, `get` returns NULL.  Nothing is published, no native key exists, the block is gone. -/
+def tlsFail (s : State) (t : Nat) (k : Nat) (get : Bool) : Except Err State :=
+  if ¬ canAct s t ∨ k = 0 ∨ ¬ k < s.nK then .error .notEnabled else
+  if (s.key k).wrapperFreed then .error (.keyUseAfterFree k) else
+  match (s.key k).published with
+  | some _ => .error .notEnabled
+  | none => .ok (if get then { s with getLog := s.getLog ++ [(t, k, 0)] } else s)
+
+/-- `p_uthread_current` of a thread without a stored handle when the lazy creation of the library key's native key keeps
+    failing: `p_uthread_get_local` → NULL; `p_malloc0 (sizeof (PUThreadBase))`, `ref_count = 1`; `p_uthread_set_local` stores
+    nothing; the read-back differs from the fresh block → `p_free (base_thread)`; NULL.  The block takes the next handle id:
+    allocated and released inside the call (as in `createFail`).  (Whether the read-back's own attempt to create the native
+    key succeeds is the separate `keyCreate`/`keyCas` pair.) -/
+def currentFail (s : State) (t : Nat) : Except Err State :=
+  if ¬ canAct s t then .error .notEnabled else
+  if (s.key 0).wrapperFreed then .error (.keyUseAfterFree 0) else
+  if valueOf s t 0 ≠ 0 then .error .notEnabled else
+  .ok { s with
+    nH := s.nH + 1
+    hdl := upd s.hdl s.nH { freed := true, written := true }
+    freeLog := s.freeLog ++ [s.nH] }
+
 /-! ## library shutdown (the end of a history, not an event of the machine)
 
 `p_uthread_init` is the initial state `init`: the library key's wrapper exists (`p_uthread_local_new
@@ -497,6 +551,10 @@ def step (s : State) : Ev → Except Err State
   | .setLocal t k v => setLocal s t k v
   | .replaceLocal t k v => replaceLocal s t k v
   | .getLocal t k => getLocal s t k
+  | .createFail a => createFail s a
+  | .joinFail a h => joinFail s a h
+  | .tlsFail t k g => tlsFail s t k g
+  | .currentFail t => currentFail s t
 
 def run : State → List Ev → Except Err State
   | s, [] => .ok s
@@ -525,6 +583,7 @@ def Permitted (s : State) : Ev → Prop
   | .ref a h => 0 < (s.hdl h).userRefs ∨ ((s.hdl h).thread = a ∧ (s.hdl h).threadRef = true)
   | .join a h => (0 < (s.hdl h).userRefs ∨ ((s.hdl h).thread = a ∧ (s.hdl h).threadRef = true)) ∧ (s.hdl h).joined = false
   | .unref _ h => 0 < (s.hdl h).userRefs
+  | .joinFail a h => (0 < (s.hdl h).userRefs ∨ ((s.hdl h).thread = a ∧ (s.hdl h).threadRef = true)) ∧ (s.hdl h).joined = false
   | _ => True
 
 instance (s : State) (e : Ev) : Decidable (Permitted s e) := by
